@@ -223,6 +223,10 @@ class StandardFuncs(SnowfakeryPlugin):
 
         def random_number(self, min: int, max: int, step: int = 1) -> int:
             """Pick a random number between min and max like Python's randint."""
+            # in the default dialect a formula-valued `0` or negative argument arrives as a string
+            min, max, step = (
+                int(arg) if isinstance(arg, str) else arg for arg in (min, max, step)
+            )
             return random.randrange(min, max + 1, step)
 
         def reference(
